@@ -64,7 +64,12 @@ func TestC10NoHalt(t *testing.T) {
 		}
 		cur = sim
 		defer sim.Close()
-		sim.Profile = "hostile"
+		// traffic mix: hostile staking/governance traffic, optionally with the registry generator of C17 (role changes,
+		// migrations, foreign listings, key rotations) or the debonding-heavy profile of C15 on top
+		traffic := rapid.SampledFrom([]string{"hostile", "hostile", "hostile+registry", "debond+registry"}).Draw(t, "traffic")
+		sim.Profile = strings.Split(traffic, "+")[0]
+		withRegistry := strings.HasSuffix(traffic, "+registry")
+		rec.Label("traffic:" + traffic)
 		fail := func(sig, format string, args ...any) {
 			ev.Violation(t, sig, "%s; spec=%+v trace=%v", fmt.Sprintf(format, args...), *spec, tail(sim.Trace, 30))
 		}
@@ -81,6 +86,20 @@ func TestC10NoHalt(t *testing.T) {
 			epochChanged := uint64(view.Epoch) != lastEpoch && lastEpoch != 0
 			lastEpoch = uint64(view.Epoch)
 			bg := sim.GenBlock(t, view, ev.Pick(8, 14))
+			regOf := map[*chain.TxDesc]*chain.RegTx{}
+			if withRegistry {
+				g := chain.NewTxGen(sim.W, view, "registry")
+				for _, d := range bg.Txs {
+					if d.ExpectAuthOK {
+						g.Bump(d.Addr)
+					}
+				}
+				for i, n := 0, rapid.IntRange(0, 3).Draw(t, "nreg"); i < n; i++ {
+					rt := g.GenRegistry(t)
+					regOf[rt.TxDesc] = rt
+					bg.Txs = append(bg.Txs, rt.TxDesc)
+				}
+			}
 			view.Close()
 			b := bg.Block
 			byzantine := rapid.IntRange(0, 3).Draw(t, "byzantine") == 0
@@ -210,6 +229,9 @@ func TestC10NoHalt(t *testing.T) {
 					break
 				}
 				res := proc.TxResults[j]
+				if rt := regOf[d]; rt != nil && res.Code == 0 && rt.Unauthorized == "" && rt.OnSuccess != nil {
+					rt.OnSuccess()
+				}
 				if d.Mutated == "garbage" || d.Mutated == "truncated" || d.Mutated == "oversized" || d.Mutated == "system-method" {
 					if res.Code == 0 {
 						fail("garbage-accepted", "height %d: %s transaction succeeded", b.Height, d.Mutated)
